@@ -308,7 +308,7 @@ func runC16(c *Ctx) {
 	}
 
 	// ---- random
-	nrand := 3000
+	nrand := 6500
 	if c.Thorough() {
 		nrand = 40000
 	}
